@@ -590,6 +590,7 @@ func (p *Parser) parseCommodityDirective(startPos Position) ast.Directive {
 
 func (p *Parser) parseIncludeDirective(startPos Position) ast.Directive {
 	var path strings.Builder
+	pathStart := p.current.Pos
 
 	for p.current.Type != TokenNewline && p.current.Type != TokenEOF && p.current.Type != TokenComment {
 		path.WriteString(p.current.Value)
@@ -606,6 +607,14 @@ func (p *Parser) parseIncludeDirective(startPos Position) ast.Directive {
 	inc := ast.Include{
 		Path:  pathStr,
 		Range: ast.Range{Start: toASTPosition(startPos)},
+	}
+	inc.PathRange = ast.Range{
+		Start: toASTPosition(pathStart),
+		End: ast.Position{
+			Line:   pathStart.Line,
+			Column: pathStart.Column + utf16Len(pathStr),
+			Offset: pathStart.Offset + len(pathStr),
+		},
 	}
 	inc.Range.End = toASTPosition(p.prevEnd)
 	p.skipToNextLine()
